@@ -27,12 +27,14 @@ func checkC10(c *Ctx) {
 	c.Rule("C10/R6", "tables ready: every package-level table read on the way from Scale, CommonScale or ClassOf is filled by the package initialiser, or every path to the read passes a call that fills it")
 	c.Rule("C10/R5", "unit class: ClassOf returns Binary exactly when a numerator token equals B, MB or bytes")
 
+	c.Rule("C10/R7", "unit class over characters, not bytes (same rule as C04/R8): no unicode predicate in benchunit is applied to a lone byte widened to a rune")
 	p := mustLoad(c, loadOpts{}, "./benchunit")
 	c10Ladders(c, p)
 	c10Select(c, p)
 	c10Format(c, p)
 	c10Class(c, p)
 	c10TablesReady(c, p)
+	byteRuneRule(c, p, "C10/R7", "benchunit")
 }
 
 // c10TablesReady (C10/R6): every package-level table read on the way from Scale/CommonScale is either filled by the package
